@@ -131,7 +131,8 @@ Record gpkg := {
   p_name : string;
   p_imports : list string;   (* import paths *)
   p_consts : list cdecl;     (* in scope-name (sorted) order *)
-  p_type_names : list string (* ids of the defined types found through scope names, in scope order *)
+  p_type_names : list string; (* ids of the defined types found through scope names, in scope order *)
+  p_scope : list string       (* every package-level identifier (types, constants, variables, functions), sorted *)
 }.
 
 Record prog := {
